@@ -7,6 +7,8 @@ Case format (tree):  [ckind, [okind, x0, b0, c0], ops]
   ops    [code, arg]: 0 a.x = arg | 1 del a.x | 2 a.x | 3 a.b = b[arg] | 4 del a.b | 5 a.b
          | 6 a.cs.append/add/set(c[arg]) | 7 a.cs.remove(c[arg]) | 8 a.cs = [c[i] for i in arg]
          | 9 del a.cs | 10 a.cs | 11 session.flush() | 12 session.expire(a)
+         keyed dict only (k = key of child arg): 13 a.cs.pop(k) | 14 a.cs.pop(k, None) | 15 a.cs.popitem()
+         | 16 del a.cs[k] | 17 a.cs.setdefault(k, c[arg]) | 18 a.cs.update({k_i: c[i] for i in arg}) | 19 a.cs.clear()
 Observation: one [rc, ret, hist x, hist b, hist cs, modified] per operation (coq/orm/HistoryRun.v);
 a flush that raises ends the run.  Values: 0 = None, ints / object numbers positive.
 """
@@ -90,6 +92,14 @@ ANCHORS = [
     ("lib/sqlalchemy/orm/collections.py", "_set_decorators.remove"),
     ("lib/sqlalchemy/orm/collections.py", "_dict_decorators.__setitem__"),
     ("lib/sqlalchemy/orm/collections.py", "_dict_decorators.__delitem__"),
+    ("lib/sqlalchemy/orm/collections.py", "_dict_decorators.pop"),
+    ("lib/sqlalchemy/orm/collections.py", "_dict_decorators.popitem"),
+    ("lib/sqlalchemy/orm/collections.py", "_dict_decorators.setdefault"),
+    ("lib/sqlalchemy/orm/collections.py", "_dict_decorators.update"),
+    ("lib/sqlalchemy/orm/collections.py", "_dict_decorators.clear"),
+    ("lib/sqlalchemy/orm/collections.py", "__before_pop"),
+    ("lib/sqlalchemy/orm/collections.py", "CollectionAdapter.fire_pre_remove_event"),
+    ("lib/sqlalchemy/orm/attributes.py", "_CollectionAttributeImpl.fire_pre_remove_event"),
     ("lib/sqlalchemy/orm/mapped_collection.py", "KeyFuncDict.set"),
     ("lib/sqlalchemy/orm/mapped_collection.py", "KeyFuncDict.remove"),
     ("lib/sqlalchemy/orm/dependency.py", "_ManyToOneDP.process_saves"),
@@ -101,6 +111,8 @@ NC = 4
 CKEY = {1: 1, 2: 2, 3: 1, 4: 3}  # children 1 and 3 share a dict key
 
 SETX, DELX, GETX, SETB, DELB, GETB, CADD, CREM, CREPL, CDEL, CGET, FLUSH, EXPIRE = range(13)
+CPOP, CPOPD, CPOPITEM, CDELKEY, CSETDEFAULT, CUPDATE, CCLEAR = range(13, 20)
+_DICT_OPS = (CPOP, CPOPD, CPOPITEM, CDELKEY, CSETDEFAULT, CUPDATE, CCLEAR)
 
 
 def translate(repo, outdir):
@@ -123,6 +135,11 @@ _ALPHABET = (
     + [[CDEL, 0], [CGET, 0], [FLUSH, 0], [EXPIRE, 0]]
 )
 _COLL_LETTERS = [o for o in _ALPHABET if o[0] in (CADD, CREM, CREPL, CDEL, CGET, FLUSH, EXPIRE)]
+_DICT_LETTERS = (
+    [[c, o] for c in (CPOP, CPOPD, CDELKEY, CSETDEFAULT) for o in (1, 3, 4)]
+    + [[CPOPITEM, 0], [CCLEAR, 0]]
+    + [[CUPDATE, l] for l in ([], [1], [3], [2, 4], [3, 2])]
+)
 
 
 def _fix_repl(kind, l):
@@ -155,6 +172,10 @@ def _rand_case(rng):
             arg = rng.choice([0, 1, 2, 3])
         elif code in (CADD, CREM):
             arg = rng.randint(1, 4)
+            if kind == 2 and rng.random() < 0.5:
+                code = rng.choice([CPOP, CPOPD, CDELKEY, CSETDEFAULT, CPOPITEM, CCLEAR, CUPDATE])
+                if code == CUPDATE:
+                    arg = _fix_repl(2, [rng.randint(1, 4) for _ in range(rng.randint(0, 3))])
         elif code == CREPL:
             arg = _fix_repl(kind, [rng.randint(1, 4) for _ in range(rng.randint(0, 3))])
         else:
@@ -205,6 +226,15 @@ def _families():
                 if b[0] != FLUSH:
                     ops.append([FLUSH, 0])
                 yield {"in": [kind, init, ops], "kind": "pairs-set" if kind == 1 else "pairs-dict"}
+    # keyed dict: every instrumented method as the FIRST mutation after load / flush / expire,
+    # followed by a second one and a flush
+    for init in inits + [[1, 1, 1, [2, 3]], [2, 1, 1, []]]:
+        for a in _DICT_LETTERS:
+            yield {"in": [2, init, [list(a), [FLUSH, 0]]], "kind": "dict-first"}
+            yield {"in": [2, init, [[FLUSH, 0], [EXPIRE, 0], list(a), [FLUSH, 0], list(a)]], "kind": "dict-first"}
+    for init in inits:
+        for a, b in itertools.product(_DICT_LETTERS + [[CADD, 3], [CGET, 0]], repeat=2):
+            yield {"in": [2, init, [list(a), list(b), [FLUSH, 0]]], "kind": "pairs-dictops"}
     tx = [[EXPIRE, 0], [SETX, 2], [DELX, 0], [GETX, 0], [FLUSH, 0]]
     tb = [[EXPIRE, 0], [SETB, 2], [DELB, 0], [GETB, 0], [FLUSH, 0]]
     tc = [[EXPIRE, 0], [CADD, 3], [CREM, 1], [CDEL, 0], [CGET, 0], [FLUSH, 0], [CREPL, [2, 3]]]
@@ -214,11 +244,23 @@ def _families():
                 yield {"in": [0, init, [list(o) for o in ops]], "kind": fam}
 
 
+def _value_object_cases():
+    """list collection whose members define __eq__/__hash__ by value (children 1 and 3 are equal):
+    swapping a member for an equal one is a change; checked by the oracle only (no Coq model)"""
+    letters = [[CREPL, [3]], [CREPL, [3, 2]], [CREPL, [1]], [CADD, 3], [CADD, 1], [CGET, 0], [FLUSH, 0], [EXPIRE, 0]]
+    for init in ([1, 1, 1, [1]], [1, 1, 1, [1, 2]], [2, 1, 1, [3]], [0, 0, 0, []]):
+        for a, b in itertools.product(letters, repeat=2):
+            yield {"in": [3, init, [list(a), list(b), [FLUSH, 0]]], "kind": "value-objects", "model": False}
+
+
 def gen_cases(rng, tier):
     cases = [{"in": [k, list(i), [list(o) for o in ops]], "kind": "core"} for k, i, ops in _CORE]
+    vo = list(_value_object_cases())
+    cases += vo if tier == "thorough" else rng.sample(vo, 100)
     fam = list(_families())
     if tier != "thorough":
-        fam = rng.sample(fam, 1200)  # a seeded part of the 4400 exhaustive small sequences
+        first = [c for c in fam if c["kind"] == "dict-first"]
+        fam = first + rng.sample([c for c in fam if c["kind"] != "dict-first"], 1100)
     cases += fam
     nrand = 12000 if tier == "thorough" else 700
     for _ in range(nrand):
@@ -243,9 +285,10 @@ def nontrivial(c):
         elif code in (SETB, DELB):
             muts["b"] += 1
             special |= code == DELB or arg == init[2]
-        elif code in (CADD, CREM, CREPL, CDEL):
+        elif code in (CADD, CREM, CREPL, CDEL) + _DICT_OPS:
             muts["c"] += 1
-            special |= code in (CREM, CDEL) or (code == CREPL and sorted(arg) == sorted(init[3]))
+            special |= code in (CREM, CDEL, CPOP, CPOPD, CPOPITEM, CDELKEY, CCLEAR) or (
+                code == CREPL and sorted(arg) == sorted(init[3]))
     return special and max(muts.values()) >= 2
 
 
@@ -269,18 +312,18 @@ def impl_setup():
         id = Column(Integer, primary_key=True)
 
     classes = {}
-    for kind in (0, 1, 2):
-        C = type(
-            "C%d" % kind,
-            (Base,),
-            {
-                "__tablename__": "c%d" % kind,
-                "id": Column(Integer, primary_key=True),
-                "k": Column(Integer),
-                "aid": Column(ForeignKey("a%d.id" % kind)),
-            },
-        )
-        ccls = [list, set, attribute_keyed_dict("k")][kind]
+    for kind in (0, 1, 2, 3):
+        body = {
+            "__tablename__": "c%d" % kind,
+            "id": Column(Integer, primary_key=True),
+            "k": Column(Integer),
+            "aid": Column(ForeignKey("a%d.id" % kind)),
+        }
+        if kind == 3:  # value objects: children 1 and 3 compare (and hash) equal
+            body["__eq__"] = lambda self, other: isinstance(other, type(self)) and self.k == other.k
+            body["__hash__"] = lambda self: hash(self.k)
+        C = type("C%d" % kind, (Base,), body)
+        ccls = [list, set, attribute_keyed_dict("k"), list][kind]
         A = type(
             "A%d" % kind,
             (Base,),
@@ -298,7 +341,7 @@ def impl_setup():
     Base.metadata.create_all(e)
     with Session(e) as s:
         s.add_all([B(id=i) for i in range(1, NB + 1)])
-        for kind in (0, 1, 2):
+        for kind in (0, 1, 2, 3):
             s.add_all([classes[kind][1](id=i, k=CKEY[i]) for i in range(1, NC + 1)])
         s.commit()
     _ENV.update(B=B, classes=classes, e=e)
@@ -357,7 +400,11 @@ def impl(case):
             return cid[id(v)]
 
         def H(key, enc, sort=False):
-            h = getattr(st.attrs, key).history
+            try:
+                h = getattr(st.attrs, key).history
+                [enc(v) for part in h for v in part]
+            except Exception:  # inspecting the history must not raise
+                return [[-9], [], []]
             r = []
             for part in h:
                 l = [enc(v) for v in part]
@@ -399,7 +446,7 @@ def impl(case):
                 elif code == GETB:
                     ret = [encb(a.b)]
                 elif code == CADD:
-                    if ckind == 0:
+                    if ckind in (0, 3):
                         a.cs.append(cs[arg])
                     elif ckind == 1:
                         a.cs.add(cs[arg])
@@ -408,7 +455,7 @@ def impl(case):
                 elif code == CREM:
                     a.cs.remove(cs[arg])
                 elif code == CREPL:
-                    if ckind == 0:
+                    if ckind in (0, 3):
                         a.cs = [cs[i] for i in arg]
                     elif ckind == 1:
                         a.cs = {cs[i] for i in arg}
@@ -427,6 +474,20 @@ def impl(case):
                     ret = dbstate()
                 elif code == EXPIRE:
                     s.expire(a)
+                elif code == CPOP:
+                    a.cs.pop(CKEY[arg])
+                elif code == CPOPD:
+                    a.cs.pop(CKEY[arg], None)
+                elif code == CPOPITEM:
+                    a.cs.popitem()
+                elif code == CDELKEY:
+                    del a.cs[CKEY[arg]]
+                elif code == CSETDEFAULT:
+                    a.cs.setdefault(CKEY[arg], cs[arg])
+                elif code == CUPDATE:
+                    a.cs.update({CKEY[i]: cs[i] for i in arg})
+                elif code == CCLEAR:
+                    a.cs.clear()
                 else:
                     raise NotImplementedError(code)
             except (AttributeError, KeyError, ValueError, sa_exc.InvalidRequestError) as ex:
@@ -476,7 +537,7 @@ def _coll_apply(kind, cur, code, arg):
     """Python semantics of the collection operation on the members (list of child numbers)"""
     cur = list(cur)
     if code == CADD:
-        if kind == 0:
+        if kind in (0, 3):
             cur.append(arg)
         elif kind == 1:
             if arg not in cur:
@@ -489,6 +550,20 @@ def _coll_apply(kind, cur, code, arg):
         cur.remove(arg)
     elif code == CREPL:
         cur = list(arg)
+    elif code in (CPOP, CPOPD, CDELKEY):
+        cur = [o for o in cur if CKEY[o] != CKEY[arg]]
+    elif code == CPOPITEM:
+        cur = cur[:-1]
+    elif code == CSETDEFAULT:
+        if not any(CKEY[o] == CKEY[arg] for o in cur):
+            cur.append(arg)
+    elif code == CUPDATE:
+        for v in arg:
+            cur = [v if CKEY[o] == CKEY[v] else o for o in cur]
+            if v not in cur:
+                cur.append(v)
+    elif code == CCLEAR:
+        cur = []
     return cur
 
 
@@ -532,14 +607,19 @@ def oracle(case, obs):
             tag = "[flush-after-del] " if delx_persistent_missing else ""
             return "%s%s: flush raised (rc=%d)" % (tag, where, rc)
         hs = {"x": o[2], "b": o[3], "c": o[4]}
+        for k in "xbc":
+            if hs[k] == [[-9], [], []]:
+                return "%s: reading the history of %s raised" % (where, k)
         if rc != 0:
             for k in "xbc":
                 got = (sorted(hs[k][0]), sorted(hs[k][2]))
                 if got != (sorted(prev[k][0]), sorted(prev[k][1])):
                     tag = "[failed-delete] " if (code == DELX and k == "x" and rc == 1) else ""
+                    if k == "c" and st["c"]["cdel"]:
+                        tag = "[collection-del] "  # the deleted collection's history surfaces only now
                     return "%s%s raised (rc=%d) but the history of %s changed from %s to %s" % (
                         tag, where, rc, k, prev[k], got)
-            if code == CREM and persistent and not st["c"]["dirty"]:
+            if code in (CREM, CPOP, CPOPITEM, CDELKEY) and persistent and not st["c"]["dirty"]:
                 st["c"]["loaded"] = True  # a.cs was read before remove() raised
             continue
         # ---- the operation succeeded: its meaning for the user ----
@@ -555,13 +635,17 @@ def oracle(case, obs):
             mutate("b", _MISSING)
         elif code == GETB:
             pass
-        elif code in (CADD, CREM, CREPL):
+        elif code in (CADD, CREM, CREPL) + _DICT_OPS:
             cur = view("c")
             cur = [] if cur is _MISSING else cur
             new = _coll_apply(kind, cur, code, arg)
             if code != CREPL and persistent and not st["c"]["dirty"]:
                 st["c"]["loaded"] = True  # a.cs was read
-            if not (kind == 1 and code == CADD and arg in cur):  # adding a present member: no change
+            if kind == 1 and code == CADD and arg in cur:
+                pass  # adding a present member: no change
+            elif code in _DICT_OPS and new == cur:
+                pass  # pop of a missing key with a default, setdefault / update of present entries, ...
+            else:
                 mutate("c", new)
         elif code == CDEL:
             if st["c"]["loaded"] or st["c"]["dirty"]:
